@@ -204,6 +204,7 @@ IDIOMS = [
     ("'.'.join(map(str, %s))", 'join_dot_str'),
     ("':'.join([f'{i:02x}' for i in %s])", 'join_colon_hex'),
 ]
+GUID_FMT = '%02x%02x%02x%02x-%02x%02x-%02x%02x-%02x%02x-%02x%02x%02x%02x%02x%02x'
 MAX_INLINE = 6
 
 
@@ -286,6 +287,10 @@ class Translator:
                 hi = 'None' if e.slice.upper is None else '(Some %s)' % self.expr(e.slice.upper, c, pre)
                 return '(ESlice %s %s %s)' % (v, lo, hi)
             return '(EIndex %s %s)' % (v, self.expr(e.slice, c, pre))
+        if (isinstance(e, ast.BinOp) and isinstance(e.op, ast.Mod) and isinstance(e.left, ast.Constant)
+                and e.left.value == GUID_FMT and ast.unparse(e.right).startswith('tuple(reversed(')
+                and isinstance(e.right, ast.Call) and len(e.right.args) == 1 and len(e.right.args[0].args) == 1):
+            return '(ECall "guid_string" [%s])' % self.expr(e.right.args[0].args[0], c, pre)
         if isinstance(e, ast.BinOp):
             if type(e.op) not in BINOPS:
                 raise Unsupp('operator %s' % type(e.op).__name__)
@@ -382,6 +387,26 @@ class Translator:
                 pass
         raise Unsupp('attribute %s' % ast.unparse(e)[:50])
 
+    def const_name(self, key, c):
+        """attribute name given to setattr/getattr/hasattr: a string constant, a loop variable bound to one by
+        unrolling, or '<fmt>' % <such constants> (folded)"""
+        if isinstance(key, ast.Name) and key.id in c.subst:
+            return self.const_name(c.subst[key.id], c)
+        if isinstance(key, ast.Constant) and isinstance(key.value, (str, int)) and not isinstance(key.value, bool):
+            return key.value
+        if isinstance(key, ast.BinOp) and isinstance(key.op, ast.Mod):
+            fmt = self.const_name(key.left, c)
+            if isinstance(key.right, ast.Tuple):
+                args = tuple(self.const_name(x, c) for x in key.right.elts)
+            else:
+                args = self.const_name(key.right, c)
+            if isinstance(fmt, str) and fmt is not None and args is not None and (not isinstance(args, tuple) or None not in args):
+                try:
+                    return fmt % args
+                except (TypeError, ValueError):
+                    return None
+        return None
+
     def call(self, e, c, pre):
         f = e.func
         src = ast.unparse(e)
@@ -405,18 +430,22 @@ class Translator:
                 return '(ECall "bytebuffer" [%s])' % self.expr(a, c, pre)
             if name == 'VersionField' and len(e.args) == 1 and isinstance(e.args[0], ast.Tuple) and len(e.args[0].elts) == 2:
                 return '(ECall "version_field" [%s; %s])' % tuple(self.expr(x, c, pre) for x in e.args[0].elts)
-            if name in ('hasattr', 'getattr') and len(e.args) == 2:
-                key = e.args[1]
-                if isinstance(key, ast.Name) and key.id in c.subst:
-                    key = c.subst[key.id]
-                if not (isinstance(key, ast.Constant) and isinstance(key.value, str)):
+            if name in ('hasattr', 'getattr') and len(e.args) in (2, 3):
+                key = self.const_name(e.args[1], c)
+                if not isinstance(key, str):
                     raise Unsupp('%s with a non-constant name' % name)
-                tgt = ast.Attribute(value=e.args[0], attr=key.value, ctx=ast.Load())
+                tgt = ast.Attribute(value=e.args[0], attr=key, ctx=ast.Load())
                 r = self.attribute(tgt, c, pre)
-                if name == 'hasattr':
+                if name == 'hasattr' or len(e.args) == 3:
                     if not r.startswith('(EField '):
-                        raise Unsupp('hasattr on a non-message object')
-                    return '(EHasField ' + r[len('(EField '):]
+                        raise Unsupp('%s on a non-message object' % name)
+                    has = '(EHasField ' + r[len('(EField '):]
+                    if name == 'hasattr':
+                        if len(e.args) != 2:
+                            raise Unsupp('hasattr with 3 arguments')
+                        return has
+                    # getattr(msg, name, default): the field of the message class when it has one
+                    return '(EIf %s %s %s)' % (has, r, self.expr(e.args[2], c, pre))
                 return r
             if name in c.mod.funcs:
                 return self.inline_function(c.mod, c.mod.funcs[name], e, c, pre, selfkind=None)
@@ -756,12 +785,10 @@ class Translator:
                         out.append('SCheck %s' % q(c.msgs[a.id]))
                     return out
                 if isinstance(f, ast.Name) and f.id == 'setattr' and len(v.args) == 3:
-                    key = v.args[1]
-                    if isinstance(key, ast.Name) and key.id in c.subst:
-                        key = c.subst[key.id]
-                    if not (isinstance(key, ast.Constant) and isinstance(key.value, str)):
+                    key = self.const_name(v.args[1], c)
+                    if not isinstance(key, str):
                         raise Unsupp('setattr with a non-constant name')
-                    tgt = ast.Attribute(value=v.args[0], attr=key.value, ctx=ast.Store())
+                    tgt = ast.Attribute(value=v.args[0], attr=key, ctx=ast.Store())
                     return self.assign(tgt, v.args[2], c)
                 if isinstance(f, ast.Attribute) and f.attr == 'append' and len(v.args) == 1:
                     tgt = f.value
